@@ -251,3 +251,46 @@ V('C19-benign-comprehension', 'C19', ND,
             cnode.accept_node_visitor(self) if cnode is not None else None
             for cnode in nodelist
         ]""", 'SILENT')
+
+
+# ----------------------------------------------------------------------- C09
+VB = 'pylatexenc/latexnodes/parsers/_verbatim.py'
+SA = 'pylatexenc/latexnodes/parsers/_stdarg.py'
+V('C09-revert-D7', 'C09', VB,
+  """            verbatim_info.depth_counter -= 1
+            if verbatim_info.depth_counter <= 0:""",
+  """            self.depth_counter = getattr(self, 'depth_counter', 1) - 1
+            if self.depth_counter <= 0:""", 'R09a',
+  'D7: nesting depth kept on the cached parser object')
+V('C09-parser-remembers-pos', 'C09', 'pylatexenc/latexnodes/parsers/_expression.py',
+  "        expr_parsing_state = parsing_state.sub_context(enable_environments=False)\n",
+  "        expr_parsing_state = parsing_state.sub_context(enable_environments=False)\n        self._last_parsing_state = expr_parsing_state\n", 'R09a')
+V('C09-class-level-counter', 'C09', 'pylatexenc/macrospec/_argumentsparser.py',
+  "        argnlist = []\n",
+  "        argnlist = []\n        LatexArgumentsParser.num_parsed = getattr(LatexArgumentsParser, 'num_parsed', 0) + 1\n", 'R09a')
+V('C09-stdarg-key-forgets-kwargs', 'C09', SA,
+  """        k = tuple(list(sorted(d.items(), key=lambda v: v[0]))) # sort by key
+""",
+  """        k = arg_spec
+""", 'R09b')
+V('C09-cache-overwrite', 'C09', SA,
+  """    if k not in _std_arg_parser_instances:
+        instance = LatexStandardArgumentParser(arg_spec, **kwargs)
+        _std_arg_parser_instances[k] = instance
+        return instance
+""",
+  """    instance = LatexStandardArgumentParser(arg_spec, **kwargs)
+    _std_arg_parser_instances[k] = instance
+    return instance
+""", 'R09b')
+V('C09-default-mutated', 'C09', 'pylatexenc/macrospec/_latexcontextdb.py',
+  "        category_dicts = {\n            'macros': dict( (m.macroname, m) for m in macros ),",
+  "        macros.extend([])\n        category_dicts = {\n            'macros': dict( (m.macroname, m) for m in macros ),", 'R09c')
+V('C09-spec-written-in-parse', 'C09', 'pylatexenc/macrospec/_macrocallparser.py',
+  "    def parse(self, latex_walker, token_reader, parsing_state, **kwargs):\n",
+  "    def parse(self, latex_walker, token_reader, parsing_state, **kwargs):\n        self.spec.last_token = self.token_call\n", 'R09a2')
+V('C09-db-mutated-by-walker', 'C09', 'pylatexenc/latexwalker/_walker.py',
+  "                latex_context.freeze() # prevent future changes to the latex context db\n",
+  "                latex_context.set_unknown_macro_spec(None)\n                latex_context.freeze() # prevent future changes to the latex context db\n", 'R09d')
+V('C09-benign-local', 'C09', SA,
+  "        arg_parser = self._arg_parser\n", "        arg_parser = self._arg_parser  # cached\n", 'SILENT')
